@@ -149,6 +149,11 @@ def run(c, chk):
         sub11 = report.SubCheck(chk, 'R15.8', 'C11', only=('R11.1',))
         _c11.run(c, sub11)
         sub11.done('name resolution')
+        # R15.9: a comment leaves nothing behind in the scanner but its token: no flag or counter set while a comment is collected
+        # is still there when the next string is read (a mutable global under no reset discipline: rule R8.0 of C08)
+        from . import c08 as _c08g
+        chk.rule('R15.9', 'a comment leaves no scanner state behind: neither unit has a mutable global outside the reset disciplines (rule R8.0 of C08)')
+        _c08g.classified_globals(c, chk, rid='R15.9', rid5='R15.9')
     marker_only(c, chk)
     attach_function(c, chk)
     printer_emits(c, chk)
